@@ -137,6 +137,14 @@ static varintBitmap *build_operand(const char *name) {
     for (int i = 0; i < nK; i++) {
         if (!strcmp(K[i].name, name)) {
             varintBitmap *vb = varintBitmapCreate();
+            size_t nl = strlen(name);
+            if (nl && name[nl - 1] == 'r') { /* run-container operand */
+                for (int j = 0; j < K[i].niv; j++) {
+                    varintBitmapAddRange(vb, (uint16_t)K[i].iv[j][0],
+                                         (uint16_t)(K[i].iv[j][1] > 65535 ? 65535 : K[i].iv[j][1]));
+                }
+                return vb;
+            }
             for (int j = 0; j < K[i].niv; j++) {
                 /* element-wise so that the operand does not depend on AddRange */
                 for (uint32_t x = K[i].iv[j][0]; x < K[i].iv[j][1]; x++) {
